@@ -108,6 +108,12 @@ class _FaultyPolicy(pythia.Policy):
     f.calls['suggest'] += 1
     k = f.calls['suggest']
     fault = f.take('suggest', k)
+    dec = self._suggest(request, fault)
+    f.deliveries.append((request.count, len(dec.suggestions)))
+    return dec
+
+  def _suggest(self, request, fault):
+    f = self._f
     if fault is None:
       return self._base.suggest(request)
     kind = fault['kind']
@@ -157,6 +163,7 @@ class FaultyFactory(pythia.PolicyFactory):
     self.faults = list(faults)
     self.calls = {'suggest': 0, 'early_stop': 0}
     self.fired = {}
+    self.deliveries = []  # (asked, delivered) per successful suggest
     self.enabled = True
 
   def take(self, site, k):
